@@ -75,6 +75,17 @@ def run_mut_jobs(chk, jobs):
             chk.inconclusive.append(name)
         elif not res['cex']:
             chk.query(name, 'unsat:holds', wall, **kw)
+        for fname, msg in res.get('forms_failures', []):
+            body = ('sys.path.insert(0, %r)\n'
+                    'from vf import mutworker as mw\n'
+                    'msg = mw.replay_forms(hszinc, %r, %r)\n'
+                    'if msg is not None:\n'
+                    '    VIOLATED(msg)\n'
+                    'HOLDS()\n') % (common.VERIF, j, fname)
+            tag = '%s-form-%s' % (j['prop'], fname)
+            verdict = chk.candidate(tag, body, '%s: JSON input form %s: %s' % (j['prop'], fname, msg[:300]), model=fname)
+            chk.query(tag, 'counterexample:' + verdict, wall, model=fname, message=msg[:200])
+            chk.samples.append({'form': fname, 'what': msg[:200], 'replay': verdict})
         for c in res['cex']:
             key = (c['what'][:60], c['doc'])
             seen_what[key] = seen_what.get(key, 0) + 1
